@@ -449,16 +449,30 @@ func (r *DownRunner) RunDown(c *DownCase) error {
 		wg.Wait()
 	}
 	callWG.Wait()
-	// quiescence on A
-	last, stable := -1, 0
-	deadline := time.Now().Add(3 * time.Second)
-	for time.Now().Before(deadline) && stable < 4 {
-		wa.mu.Lock()
-		n := 0
-		for _, v := range wa.notes {
-			n += len(v)
+	// quiescence on A: up to 3 s for the notices the holders are entitled to, then a little longer for any that should not come
+	want := 0
+	for _, res := range line.RelRes {
+		if res == "ok" {
+			want += 1 + len(c.More)
 		}
-		wa.mu.Unlock()
+	}
+	count := func() int {
+		wa.mu.Lock()
+		defer wa.mu.Unlock()
+		n := 0
+		for _, o := range obs {
+			n += len(wa.notes[o])
+		}
+		return n
+	}
+	deadline := time.Now().Add(3 * time.Second)
+	for time.Now().Before(deadline) && count() < want {
+		time.Sleep(5 * time.Millisecond)
+	}
+	last, stable := -1, 0
+	deadline = time.Now().Add(2 * time.Second)
+	for time.Now().Before(deadline) && stable < 4 {
+		n := count()
 		if n == last {
 			stable++
 		} else {
